@@ -1,6 +1,6 @@
 package main
 
-// C34: concurrent API use is free of data races — a lint for two race SHAPES (E4 racelint), not race freedom.
+// C34: concurrent API use is free of data races — a lint for four race SHAPES (E4 racelint), not race freedom.
 
 import (
 	"fmt"
@@ -144,12 +144,16 @@ func underMutex(fn *FuncNode, st ast.Node) bool {
 func checkC34(p *Prog, r *Result, tier string) {
 	r.Technique = "race-shape lint over the synchronous call graph's spawn classification (which function literals run in their own goroutine): captured-variable write rule for closures spawned more than once (R1) and unsynchronised receiver-field write rule for service types whose methods run concurrently (R2); mutex regions recognised structurally (Lock … Unlock in the same statement list, or Lock with a deferred Unlock)"
 	r.Explanation = "R1 a variable declared in an enclosing function and WRITTEN inside a closure that runs in its own goroutine (go statement, worker-pool Invoke, SentryGo; nested synchronous closures and deferred closures of it included) is reported when that closure is spawned in a loop outside of which the variable lives — several instances then write the same variable — unless the write lies in a mutex region or goes to a slice element; " +
+		"R3 a variable of the spawning function that the goroutine writes is not used by the spawning function after the spawn unless a channel receive, a Wait or a lock lies in between (the goroutine and its spawner otherwise access it concurrently); " +
+		"R4 a map field that an engine implementation writes into through its options parameter is assigned a fresh map (make, literal, nil) wherever calcium builds those options, never a map of the shared request; " +
 		"R2 a field of the receiver of a service type whose methods run concurrently (gRPC server, cluster, store, resource manager, discovery, watcher) is written outside constructors only inside a mutex region or through atomic/sync types. " +
-		"Both are necessary conditions of race freedom for the shapes they describe. This is a lint for two shapes: silence is not race freedom (no pointer analysis is available: heap objects reached through pointers, maps shared through fields and reads racing with writes are out of reach)."
+		"Both are necessary conditions of race freedom for the shapes they describe. This is a lint for four shapes: silence is not race freedom (no pointer analysis is available: heap objects reached through pointers, maps shared through fields and reads racing with writes are out of reach)."
 	r.NotCovered = "races through the heap (shared pointers, maps and slices reached via fields), read/write races where the write is synchronised but the read is not, races inside third-party code"
 	r.Assumptions = []string{"A3 pool.Invoke / SentryGo / go run the closure in another goroutine", "a write between X.Lock() and X.Unlock() (or after X.Lock() with defer X.Unlock()) is synchronised with every other write under the same mutex"}
 	r.min("R1", 20)
 	r.min("R2", 4)
+	r.min("R3", 8)
+	r.min("R4", 1)
 
 	g := getSCG(p, r)
 	if g == nil {
@@ -297,11 +301,262 @@ func checkC34(p *Prog, r *Result, tier string) {
 			r.bad("R1", fmt.Sprintf("%s / goroutines spawned in a loop write the captured %s %s", K.Name, what, v.Name()), p.pos(w.at),
 				fmt.Sprintf("`%s` is declared outside the loop that spawns this closure (at %s) and is written here without a mutex: two instances of the goroutine write it concurrently (a data race; with an error variable a later success or another node's result also overwrites the value the caller acts on)", exprStr(w.lhs), p.posOf(v.Pos())))
 		}
+		// ---- R3: the goroutine writes a variable of the function that spawned it, and that function goes on using the
+		// variable without first waiting for anything (no channel receive, no Wait, no select between the spawn and the use)
+		{
+			P := K.Parent
+			if spawnNode != ast.Node(K.Lit) && P != nil {
+				P = P.Parent
+			}
+			if P != nil && P.Body != nil {
+				from := P.find(spawnNode)
+				// barrier AST nodes of P
+				var barriers []ast.Node
+				ast.Inspect(P.Body, func(x ast.Node) bool {
+					switch y := x.(type) {
+					case *ast.UnaryExpr:
+						if y.Op == token.ARROW {
+							barriers = append(barriers, y)
+						}
+					case *ast.RangeStmt:
+						if t := P.typeOf(y.X); t != nil {
+							if _, isChan := t.Underlying().(*types.Chan); isChan {
+								barriers = append(barriers, y.X)
+							}
+						}
+					case *ast.CallExpr:
+						if sel, ok := unparen(y.Fun).(*ast.SelectorExpr); ok && (sel.Sel.Name == "Wait" || sel.Sel.Name == "Lock" || sel.Sel.Name == "RLock") {
+							barriers = append(barriers, y)
+						}
+					}
+					return true
+				})
+				within := func(n ast.Node, outer ast.Node) bool { return outer.Pos() <= n.Pos() && n.End() <= outer.End() }
+				seen3 := map[types.Object]bool{}
+				n3 := 0
+				for _, w := range writes {
+					id, sliceElem, mapElem, deref := lvalueRoot(w.fn, w.lhs)
+					if id == nil || id.Name == "_" {
+						continue
+					}
+					v, ok := w.fn.objOf(id).(*types.Var)
+					if !ok || v.IsField() || seen3[v] {
+						continue
+					}
+					if K.Lit.Pos() <= v.Pos() && v.Pos() < K.Lit.End() {
+						continue
+					}
+					if v.Parent() == nil || v.Pkg() == nil || v.Parent() == v.Pkg().Scope() {
+						continue
+					}
+					if (deref || sliceElem) && !mapElem {
+						continue
+					}
+					// declared in P (or further out, still visible in P)
+					if underMutex(w.fn, w.at) {
+						continue
+					}
+					seen3[v] = true
+					n3++
+					key := fmt.Sprintf("%s / the spawning function does not touch %s, which the goroutine writes, before it has waited for something", K.Name, v.Name())
+					if !from.valid() {
+						r.undecided("R3", key, p.pos(K.Lit), "spawn statement not found in the control-flow graph of "+P.Name)
+						continue
+					}
+					uses := func(ref nodeRef) ast.Node {
+						n := ref.node()
+						if n == nil {
+							return nil
+						}
+						var hit ast.Node
+						ast.Inspect(n, func(x ast.Node) bool {
+							if hit != nil {
+								return false
+							}
+							if lit, ok := x.(*ast.FuncLit); ok {
+								if k := p.ByLit[lit]; k != nil && g.roles[k].kind == "async" {
+									return false // another goroutine: judged on its own
+								}
+							}
+							if i, ok := x.(*ast.Ident); ok && P.Pkg.TypesInfo.Uses[i] == v && !within(i, K.Lit) {
+								hit = i
+							}
+							return true
+						})
+						return hit
+					}
+					isBarrier := func(ref nodeRef) bool {
+						n := ref.node()
+						if n == nil {
+							return false
+						}
+						for _, b := range barriers {
+							if within(b, n) && !within(b, K.Lit) {
+								return true
+							}
+						}
+						return false
+					}
+					var hit ast.Node
+					_, found := P.reach(from, true, func(x nodeRef) bool {
+						if isBarrier(x) {
+							return false
+						}
+						if h := uses(x); h != nil {
+							hit = h
+							return true
+						}
+						return false
+					}, isBarrier, false)
+					if found && hit != nil && !underMutex(P, hit) {
+						r.bad("R3", key, p.pos(hit), fmt.Sprintf("`%s` is written by the goroutine at %s and used here by the function that spawned it, with no channel receive, Wait or lock in between: the two accesses are concurrent (a data race; the spawner may also act on a value the goroutine has just replaced)", v.Name(), p.pos(w.at)))
+					} else {
+						r.ok("R3", key, p.pos(w.at), "every later use in "+P.Name+" lies behind a receive/Wait/lock, or there is none")
+					}
+				}
+				_ = n3
+			}
+		}
 		if len(reported) == 0 {
 			r.ok("R1", K.Name+" / no unsynchronised write to a variable shared between instances", p.pos(K.Lit), fmt.Sprintf("spawned via %s; %d loop(s) around the spawn; %d synchronised shared write(s)", g.roles[K].via, len(loops), okCount))
 		}
 	}
 	r.Analysed["spawned_closures"] = nSpawn
+
+	// ---- R4: a map field that an engine implementation writes into through its options parameter is a FRESH map wherever
+	// the options are built — aliasing it to a map of the (shared) request would make every goroutine that deploys one
+	// instance of that request write the same map
+	{
+		type sf struct {
+			t *types.Named
+			f string
+		}
+		written := map[sf]string{}
+		for _, fn := range p.sortedFuncs("engine") {
+			if fn.Body == nil || strings.Contains(fn.Name, "mocks") {
+				continue
+			}
+			top := topOf(fn)
+			fn.inspectBody(func(x ast.Node) bool {
+				as, ok := x.(*ast.AssignStmt)
+				if !ok {
+					return true
+				}
+				for _, l := range as.Lhs {
+					ix, ok := unparen(l).(*ast.IndexExpr)
+					if !ok {
+						continue
+					}
+					sel, ok := unparen(ix.X).(*ast.SelectorExpr)
+					if !ok {
+						continue
+					}
+					if t := fn.typeOf(sel); t == nil {
+						continue
+					} else if _, isMap := t.Underlying().(*types.Map); !isMap {
+						continue
+					}
+					rid, ok := unparen(sel.X).(*ast.Ident)
+					if !ok {
+						continue
+					}
+					ro := fn.objOf(rid)
+					if ro == nil || top.paramIndex(ro) < 0 {
+						continue
+					}
+					pt, ok := ro.Type().(*types.Pointer)
+					if !ok {
+						continue
+					}
+					nt, ok := pt.Elem().(*types.Named)
+					if !ok {
+						continue
+					}
+					written[sf{nt, sel.Sel.Name}] = p.pos(as)
+				}
+				return true
+			})
+		}
+		r.Analysed["callee_written_map_fields"] = len(written)
+		fresh := func(fn *FuncNode, e ast.Expr) bool {
+			switch x := unparen(e).(type) {
+			case *ast.CompositeLit:
+				return true
+			case *ast.CallExpr:
+				if id, ok := unparen(x.Fun).(*ast.Ident); ok && id.Name == "make" {
+					return true
+				}
+				if f := fn.Callee(x); f != nil && (f.Name() == "Clone" || f.Name() == "Copy") {
+					return true
+				}
+			case *ast.Ident:
+				if x.Name == "nil" {
+					return true
+				}
+			}
+			return false
+		}
+		n4 := 0
+		for _, fn := range funcs {
+			if strings.HasPrefix(relPath(fn.Pkg.PkgPath), "engine") {
+				continue
+			}
+			fn.inspectBody(func(x ast.Node) bool {
+				check := func(target *types.Named, field string, val ast.Expr, at ast.Node) {
+					where, ok := written[sf{target, field}]
+					if !ok {
+						return
+					}
+					n4++
+					key := fmt.Sprintf("%s / %s.%s, which the engine writes into, is a fresh map", fn.Name, target.Obj().Name(), field)
+					if fresh(fn, val) {
+						r.ok("R4", key, p.pos(at), "made here; the engine writes it at "+where)
+					} else {
+						r.bad("R4", key, p.pos(at), fmt.Sprintf("`%s` is stored as %s.%s without a copy, and the engine implementation writes into that map (%s): the goroutines that deploy the instances of one request then write one shared map concurrently (concurrent map writes), and the caller's request is modified", exprStr(val), target.Obj().Name(), field, where))
+					}
+				}
+				switch y := x.(type) {
+				case *ast.AssignStmt:
+					for i, l := range y.Lhs {
+						sel, ok := unparen(l).(*ast.SelectorExpr)
+						if !ok || len(y.Lhs) != len(y.Rhs) {
+							continue
+						}
+						t := fn.typeOf(sel.X)
+						if t == nil {
+							continue
+						}
+						if pt, ok := t.(*types.Pointer); ok {
+							t = pt.Elem()
+						}
+						if nt, ok := t.(*types.Named); ok {
+							check(nt, sel.Sel.Name, y.Rhs[i], y)
+						}
+					}
+				case *ast.CompositeLit:
+					t := fn.typeOf(y)
+					if t == nil {
+						return true
+					}
+					nt, ok := t.(*types.Named)
+					if !ok {
+						return true
+					}
+					for _, el := range y.Elts {
+						if kv, ok := el.(*ast.KeyValueExpr); ok {
+							if id, ok := kv.Key.(*ast.Ident); ok {
+								check(nt, id.Name, kv.Value, kv)
+							}
+						}
+					}
+				}
+				return true
+			})
+		}
+		if len(written) > 0 && n4 == 0 {
+			r.undecided("R4", "sites that build engine options", "", "no assignment of a callee-written map field found")
+		}
+	}
 
 	// ---- R2
 	type fw struct {
